@@ -1073,7 +1073,7 @@ class Filterbank(ABC):
         updates = {
             "fch1": new_fch1,
             "foff": new_foff,
-            "refdm": dm,
+            "dm": dm,
             "nchans": nsub,
             "nbits": 32,
             "tstart": self.header.mjd_after_nsamps(start),
